@@ -550,6 +550,9 @@ func (self *BinaryConv) writeHttpValue(ctx context.Context, resp http.ResponseSe
 					return false, unwrapError(fmt.Sprintf("reading thrift value of '%s' failed, thrift pos:%d", field.Name(), p.Read), err)
 				}
 				textVal = rt.Str2Mem(primitive.KitexToString(obj))
+				if textVal == nil {
+					textVal = []byte{} // an empty text must still count as "already read"
+				}
 				val = textVal
 			} else {
 				val = textVal
